@@ -34,6 +34,7 @@ def run(ctx, crate):
     rule_brace_not_dropped(ctx, crate)
     rule_literal_in_order(ctx, crate)
     rule_keys_matched_whole(ctx, crate)
+    rule_template_only_parser(ctx, crate)
     rule_chars_not_bytes(ctx, crate)
     # a declared `{key:width}` (any width up to u16::MAX) is rendered with exactly the declared width/alignment/truncate
     from .c12 import rule_placeholder_fields_forwarded
@@ -272,3 +273,39 @@ def rule_chars_not_bytes(ctx, crate, rule="R-PARSE-CHARS"):
                   "the pushed character is a character of the template (str::chars)",
                   "the parser builds its text from bytes converted to chars: non-ASCII literal text is corrupted", cfg)
     ctx.floor(rule, n, 1, cfg, "characters of the template pushed into the parser's buffer")
+
+
+def rule_template_only_parser(ctx, crate, rule="R-TEMPLATE-ONLY-PARSER"):
+    """The grammar ('{{' and '}}' escapes, placeholders, a '{' followed by whitespace standing for itself, one part per line) lives
+    in one function, the parser state machine. Every template a user supplies has to go through it: a `Template` or a
+    `TemplatePart` built anywhere else (a "fast path" for strings that look trivial, a hand-made default) renders its text
+    without the escapes being undone - `"step 1 }} done"` has no '{' and no newline, yet must render `step 1 } done`.
+      (a) `style::Template` and `style::TemplatePart` values are constructed only in the parser (derived Clone aside);
+      (b) every function that takes template text and returns a Template/ProgressStyle reaches the parser on every path
+          that returns Ok (the public entries `with_template`, `template`, and `Template::from_str`)."""
+    cfg = crate.config
+    parser = K.find_one(ctx, crate, rule, r"style::Template::from_str_with_tab_width")
+    if not parser:
+        return
+    n = 0
+    for adt in ("style::Template", "style::TemplatePart"):
+        for (cb, i, j, s_) in K.constructions(crate, adt):
+            if ((cb.impl or {}).get("trait") or "").startswith("std::clone::Clone") or cb.file in K.TEST_DOUBLE_FILES:
+                continue
+            owner = K.owner_fn(crate, cb)
+            n += 1
+            ctx.check(owner == parser.name, rule, "built-by-parser:%s" % adt.rsplit("::", 1)[-1], cb.name, "%s:%d" % (cb.file, s_.get("line", 0)),
+                      "%s is built by the parser" % adt.rsplit("::", 1)[-1],
+                      "%s is built outside the template parser (%s): text that bypasses the parser keeps its '}}' / '{{' escapes and is not split into lines" % (adt.rsplit("::", 1)[-1], K.meth(cb.name)), cfg)
+    ctx.floor(rule, n, 4, cfg, "constructions of Template / TemplatePart")
+    chain = [(r"style::Template::from_str", r"style::Template::from_str_with_tab_width"),
+             (r"style::ProgressStyle::with_template", r"style::Template::from_str"),
+             (r"style::ProgressStyle::template", r"style::Template::from_str")]
+    for fn, callee in chain:
+        b = K.find_one(ctx, crate, rule, fn)
+        if not b:
+            continue
+        cs = [c.bb for c in b.calls(callee, r"style::Template::from_str_with_tab_width")]
+        ok = bool(cs) and b.must_pass([0], cs)
+        ctx.check(ok, rule, "reaches-parser:%s" % K.meth(fn), b.name, K.fn_loc(b), "%s hands its text to the parser on every path" % K.meth(fn),
+                  "%s can return without handing the template text to the parser" % K.meth(fn), cfg)
